@@ -6,8 +6,11 @@ from harness.core import enc_str, dec_str
 from harness import ghist_common as G
 
 PROPERTY = "C06"
-READY = False
+READY = True
 THEOREMS = [
+    "C06.order_irrefl", "C06.order_asymm", "C06.order_trans", "C06.order_weak", "C06.order_total",
+    "C06.order_numeric", "C06.order_num_lt_word", "C06.splitItems_word", "C06.order_release_lt_master",
+    "C06.order_sorted", "C06.no_nonmatching", "C06.at_most_once_partial",
 ]
 TEXT = "BUG-7"
 RULE = ("random commit graphs (6-16 commits, 8% extra roots, 30% merges incl. octopus, random parent order, 30% build tags, "
